@@ -73,17 +73,46 @@ def param_input(p):
                          forwarding_hint=[name_input(n) for n in p['forwarding_hint']])
 
 
+class InputMutated(Exception):
+    """the encoder changed an object its caller passed in (the caller keeps using it: the next packet built from the same
+    name / parameter object would differ)"""
+
+
+def _frozen(x):
+    if isinstance(x, (bytes, bytearray, memoryview)):
+        return bytes(x)
+    if isinstance(x, (list, tuple)):
+        return tuple(_frozen(y) for y in x)
+    if isinstance(x, InterestParam):
+        return ('InterestParam', x.can_be_prefix, x.must_be_fresh, x.nonce, x.lifetime, x.hop_limit, _frozen(x.forwarding_hint))
+    if isinstance(x, MetaInfo):
+        return ('MetaInfo', x.content_type, x.freshness_period, _frozen(x.final_block_id) if x.final_block_id is not None else None)
+    return x
+
+
 def build(case, payload):
-    """calls the real encoder; returns (wire_bytes, final_name|None, signer)"""
+    """calls the real encoder; returns (wire_bytes, final_name|None, signer).  The objects handed to the encoder are compared
+    with their state before the call."""
     signer = P.make_signer(case['signer'])
     name = name_input(case['name'])
+    extra = meta_input(case['meta']) if case['kind'] == 'data' else param_input(case['param'])
+    before = (_frozen(name), _frozen(extra), _frozen(payload) if payload is not None else None)
+
+    def unchanged():
+        after = (_frozen(name), _frozen(extra), _frozen(payload) if payload is not None else None)
+        for what, a, b in zip(('name', 'meta_info / interest_param', 'payload'), before, after):
+            if a != b:
+                raise InputMutated(f'the {what} object passed by the caller was modified by the encoder')
     if case['kind'] == 'data':
-        wire = make_data(name, meta_input(case['meta']), payload, signer)
+        wire = make_data(name, extra, payload, signer)
+        unchanged()
         return bytes(wire), None, signer
     if case.get('final_name'):
-        wire, fin = make_interest(name, param_input(case['param']), payload, signer, need_final_name=True)
+        wire, fin = make_interest(name, extra, payload, signer, need_final_name=True)
+        unchanged()
         return bytes(wire), [bytes(c) for c in fin], signer
-    wire = make_interest(name, param_input(case['param']), payload, signer)
+    wire = make_interest(name, extra, payload, signer)
+    unchanged()
     return bytes(wire), None, signer
 
 
